@@ -121,6 +121,7 @@ func (r *resolver) Resolve(ctx context.Context, vk resolve.VersionKey) (*resolve
 		// requirements, retry the resolution with the new set to see if
 		// this will yield a compatible version for all (or if more
 		// incompatible requirements will be discovered).
+		verifStep("restart", "", "", "", "", 0, 0)
 		g, hasMulti, err = r.resolve(ctx, vk, requirements, false)
 	}
 	if !hasMulti {
@@ -204,6 +205,7 @@ func (r *resolver) resolve(ctx context.Context, vk resolve.VersionKey, requireme
 		// This is a BFS, Maven takes the "nearest" definition.
 		// https://maven.apache.org/guides/introduction/introduction-to-dependency-mechanism.html#transitive-dependencies
 		cur, todo = todo[0], todo[1:]
+		verifStep("dequeue", cur.VersionKey.Name, cur.VersionKey.Version, "", "", 0, 0)
 
 		if debug {
 			log.Printf("cur: %s", cur.VersionKey)
@@ -237,6 +239,7 @@ func (r *resolver) resolve(ctx context.Context, vk resolve.VersionKey, requireme
 				if debug {
 					log.Printf("dep excluded: %s %s", d.VersionKey, d.Type)
 				}
+				verifStep("declare", d.Name, "", d.Version, "excluded", 0, 0)
 				continue
 			}
 
@@ -259,8 +262,10 @@ func (r *resolver) resolve(ctx context.Context, vk resolve.VersionKey, requireme
 				}
 				slices.Sort(reqs)
 				g.AddError(concreteVersions[cur.versionKey], d.VersionKey, fmt.Sprintf("could not find a version that satisfies requirements %s for package %s", reqs, d.Name))
+				verifStep("declare", d.Name, "", d.Version, "error", 0, 0)
 				continue
 			} else if err != nil {
+				verifStep("declare", d.Name, "", d.Version, "fatal", 0, 0)
 				return nil, false, err
 			}
 
@@ -270,6 +275,7 @@ func (r *resolver) resolve(ctx context.Context, vk resolve.VersionKey, requireme
 				if err := g.AddEdge(concreteVersions[cur.versionKey], concreteVersions[c], d.Version, d.Type); err != nil {
 					return nil, false, err
 				}
+				verifStep("declare", d.Name, match.Version, d.Version, "edge", 0, 0)
 				continue
 			}
 			if ok := resolvedPackages[c.packageKey]; ok {
@@ -281,6 +287,7 @@ func (r *resolver) resolve(ctx context.Context, vk resolve.VersionKey, requireme
 				}
 				// TODO: check requirement duplicates?
 				requirements[c.packageKey] = append(reqs, d.VersionKey)
+				verifStep("declare", d.Name, match.Version, d.Version, "incompatible", 0, 0)
 				return nil, false, errIncompatible
 			}
 
@@ -355,6 +362,7 @@ func (r *resolver) resolve(ctx context.Context, vk resolve.VersionKey, requireme
 				if err := g.AddEdge(concreteVersions[cur.versionKey], id, d.Version, d.Type); err != nil {
 					return nil, false, err
 				}
+				verifStep("declare", d.Name, match.Version, d.Version, "reuse", 0, 0)
 				continue
 			}
 
@@ -390,8 +398,10 @@ func (r *resolver) resolve(ctx context.Context, vk resolve.VersionKey, requireme
 				n.repositories = append(n.repositories, registries...)
 			}
 			todo = append(todo, n)
+			verifStep("declare", d.Name, match.Version, d.Version, "new", 0, 0)
 		}
 	}
+	verifStep("done", "", "", "", "", len(g.Nodes), len(g.Edges))
 	g.Duration = time.Since(start)
 	return g, hasMulti, nil
 }
